@@ -33,8 +33,16 @@ func newCheckpoint(stats SamplingStats) checkpoint {
 			})
 		}
 	}
+	sampleFrom := stats.CatchupHead + 1
+	for _, w := range stats.Workers {
+		// a recent job that is still in flight is not resumed, so catchup has to start from
+		// its height after restart, otherwise the height would never be sampled
+		if w.JobType == recentJob && w.From < sampleFrom {
+			sampleFrom = w.From
+		}
+	}
 	return checkpoint{
-		SampleFrom:  stats.CatchupHead + 1,
+		SampleFrom:  sampleFrom,
 		NetworkHead: stats.NetworkHead,
 		Failed:      stats.Failed,
 		Workers:     workers,
